@@ -5,7 +5,8 @@ from symx import core
 from .catalogue_common import (ASSUMPTIONS, NAMES, TEMPLATES, UNITS, Env, engine_refusal, flatten, group_dims,  # noqa: F401
                                handler_coverage, install_numpy_patches, is_unyt, leaf_elements, leaf_shape, leaves_equal,
                                make_registry, numeric_obs, select, tier2_axioms, MIXED, MIX_KINDS, make_mixed_registry)
-from .common import And, Case, call, check_names, close, vabs
+from .catalogue_common import GROUP_DIMS, KGROUP, Tpl
+from .common import And, Case, Or, U, call, check_names, close, distinct_scales, vabs
 
 LEVEL = "other"
 MANIFEST = dict(
@@ -16,7 +17,10 @@ MANIFEST = dict(
           "z3 proves for ALL reals: unit-carrying results have equal dimensions and equal SI magnitudes (1e-6 band), bare results "
           "are unchanged, and results listed in an independent dimension oracle are unyt objects of the expected dimension. "
           "Opaque kernels (LAPACK/FFT/interp/histogram) are uninterpreted functions with ground instances of their homogeneity "
-          "degree from an oracle table (trusted). Bounded: template catalogue, shapes <= (2,3)."),
+          "degree from an oracle table (trusted). The dimension `dimensionless` is a dimension like any other: the catalogue is run "
+          "again with SCALED DIMENSIONLESS units of symbolic scale (percent-, m/km-, mol/mmol-like) in place of the length units, and the "
+          "mixed-unit family has operands in two different dimensionless units (atomic, compound ratio, the unscaled `dimensionless`, "
+          "a bare number). Bounded: template catalogue, shapes <= (2,3)."),
     design="DESIGN.md section 4 C07",
     technique="metamorphic symbolic execution of the real Python code over z3 real terms (unit re-expression); SMT (QF_NRA/UF) obligations per path; counterexample replay")
 EXPLANATION = (
@@ -27,23 +31,43 @@ EXPLANATION = (
     "results of functions in the dimension oracle (selection, reshaping, sorting, rounding, interpolation, location/spread "
     "statistics, products) are unyt objects of the oracle's dimension; arguments/out= buffers after the call agree likewise. "
     "Mixed-unit family: F(a@u1, b@u2) with u1 != u2 of one dimension (symbolic scales and offsets) either raises or equals - in SI "
-    "magnitude s*(x-o), bare results exactly - the same F on operands re-expressed by the harness into u1.")
+    "magnitude s*(x-o), bare results exactly - the same F on operands re-expressed by the harness into u1. "
+    "Scaled dimensionless units: (a) family `dimless` = every template that has a length operand, re-run with the units of the groups "
+    "L / L2 being dimensionless units of symbolic scale k*s and s (both clearly different from 1), same obligations, dimension oracle "
+    "with length -> dimensionless; the templates whose real code folds the scales into a sympy number (ndarray.var/std, np.std, np.nanstd/nanvar, np.var(mean=) via "
+    "Unit.simplify) run with concrete dyadic scales (1/4 vs 1/64, k = 16) and symbolic elements (`dimless-dyadic`). (b) mixed-unit "
+    "kinds dl-scale (two atomic dimensionless units, symbolic scales), dl-ratio (a compound ratio of two symbolic length units vs an "
+    "atomic one), dl-one-first / dl-one-second (one operand in the unscaled `dimensionless` == NULL_UNIT), and for np.isclose/np.allclose "
+    "dl-bare-first / dl-bare-second (that operand is a plain ndarray, which denotes dimensionless numbers), over all merging/validating "
+    "calls plus ten further call forms of isclose/allclose (swapped operands, 0-d, broadcast, atol= as a quantity in either unit, bare "
+    "atol = a difference in the unit of b, re-expressed with b).")
 BOUNDS = {
     "quick": "the `quick` subset of the template catalogue, shapes (), (2,), (3,), (2,2), (2,3); groups length/time/temperature; plus the "
              "mixed-unit family (both tiers): 48 merging/validating calls (concatenate, stack family, block, append, where, select, choose, "
              "clip, searchsorted, set functions, insert, place/put/putmask/put_along_axis/fill_diagonal/copyto/setitem/fill, linspace, pad, "
              "full_like, diff/ediff1d, isclose/allclose, interp, histogram/2d/dd range= and bins=) with operands in two different units of "
-             "one dimension x 3 kinds (symbolic scales; same scale + different symbolic offsets; different scale and offset)",
+             "one dimension x 3 kinds (symbolic scales; same scale + different symbolic offsets; different scale and offset); plus the "
+             "scaled-dimensionless region (both tiers): the same 48 calls x 4 kinds of dimensionless unit pair (dl-scale, dl-ratio without "
+             "the histogram/interp kernels, dl-one-first, dl-one-second), 10 further isclose/allclose call forms x (scale + the 4 dl kinds), "
+             "isclose/allclose with atol=0 x 2 bare-operand kinds; and the family `dimless`: every quick template with a length operand "
+             "(except the operand-rank sweep rank/*) re-run with scaled dimensionless units of symbolic scale in place of the lengths",
     "thorough": "the full template catalogue: positional / keyword / out= variants, equal and ragged extents, two different units of one "
                 "dimension inside one call (coherent factor), plus a shape x axis sweep of 25 single-operand functions over (), (1,), (0,), (2,3), "
-                "(3,2), (1,2), (2,2,2); sorting-type functions with axis=None only up to 3 elements",
+                "(3,2), (1,2), (2,2,2); sorting-type functions with axis=None only up to 3 elements; family `dimless` over the full "
+                "catalogue except the shape sweep sweep/* and the thorough-only part of the operand-rank sweep rank/* (they vary shape "
+                "and rank of the same calls, not the unit handling)",
 }
 OUTSIDE = ("IEEE rounding (bit-for-bit covariance under power-of-two rescaling is not claimed: A1); integer/complex payloads; offset units "
            "(C08); bare numbers standing for dimensional arguments are rescaled with their group (they denote a quantity in the unit of "
            "the array they accompany); np.sinc (declared unit-ignoring by its handler) only on dimensionless input; Tier-2 kernels are "
            "uninterpreted with homogeneity degrees from a hand-written oracle table (trusted); rounding family, unwrap, geomspace/logspace and isclose with a "
            "bare default atol are checked for dimension and structure only; functions whose NumPy implementation refuses object "
-           "arrays (listed as not covered in the evidence)")
+           "arrays (listed as not covered in the evidence); scaled dimensionless units: a unit whose scale is within 1e-9 of 1 is the "
+           "unscaled unit for unyt (covered as `dimensionless` itself in the dl-one-* kinds, not as a symbolic scale); a call that is "
+           "accepted for `dimensionless` next to a bare number and refused for a scaled dimensionless unit is not judged (refusal is "
+           "allowed); bare operands next to scaled dimensionless ones only for isclose/allclose (elsewhere unyt has no stated rule: "
+           "np.clip(a%, 0.3, 0.4) reads the bare bounds in percent); a bare atol only with b carrying units; ndarray.var/std on scaled "
+           "dimensionless input only with concrete dyadic scales (sympy cannot hold a z3 term); dl-ratio not for the histogram/interp kernels")
 CONFORM = {"quick": 40, "thorough": 120}
 
 
@@ -76,7 +100,7 @@ def compare(ctx, t, f1, f2, what):
                 ctx.require(f"{what} {p}: bare result unchanged", leaves_equal(x, y, exact=False), first=str(x)[:250], second=str(y)[:250])
 
 
-def oracle(ctx, t, f1):
+def oracle(ctx, t, f1, group_dims=group_dims):
     spec = t.dim
     if spec is None:
         return
@@ -102,13 +126,80 @@ def oracle(ctx, t, f1):
         ctx.require(f"dimension oracle {p}", all(ok), detail="; ".join(info)[:300])
 
 
-def make_case(t):
+# ---------------------------------------------------------------------------------------------- scaled dimensionless units
+# The dimension `dimensionless` has units too (percent, m/km, mol/mmol in unyt's default system, user-defined ratios): the family
+# "dimless" runs every template of the catalogue with the units of the groups L / L2 being SCALED DIMENSIONLESS units of symbolic
+# scale (k*s and s) instead of lengths. Handlers that decide on `is_dimensionless` / `== NULL_UNIT` take other branches there.
+DIMLESS_GROUPS = ("L", "L2")
+
+
+# concrete variant: where unyt folds a product of dimensionless units into a NUMBER (Unit.simplify -> _cancel_mul: percent**2 ->
+# 1e-4; reached by ndarray.var/std through NumPy's _var) the scale has to live in a sympy expression, which cannot hold a z3 term.
+# Those templates are run with exactly representable concrete scales (dyadic, the re-expression factor k = 16 is exact in binary
+# floating point as the property's quantifier asks); the array elements stay symbolic.
+CONCRETE_K = 16.0
+CONCRETE_SB = {"L": 1.0 / 64, "L2": 1.0 / 8}
+
+
+def make_registry_dimless(ctx, groups, both=True, concrete=False):
+    """like catalogue_common.make_registry, but the units of the groups L / L2 are dimensionless units with symbolic scales"""
+    D = ctx.mods["unyt"].dimensions
+    reg = ctx.registry([])
+    for g in groups:
+        if g in ("1", "bare"):
+            continue
+        dims = D.dimensionless if g in DIMLESS_GROUPS else getattr(D, GROUP_DIMS[g])
+        if concrete and g in DIMLESS_GROUPS:
+            ctx.add_row(reg, UNITS["A"][g], dims, CONCRETE_K * CONCRETE_SB[g])
+            ctx.add_row(reg, UNITS["B"][g], dims, CONCRETE_SB[g])
+            continue
+        sB = ctx.real("s_" + g, pos=True)
+        k = ctx.real("k_" + KGROUP.get(g, g), pos=True)
+        ctx.add_row(reg, UNITS["A"][g], dims, k * sB)
+        ctx.add_row(reg, UNITS["B"][g], dims, sB)
+        if g in DIMLESS_GROUPS:
+            # both units clearly different from the unscaled NULL_UNIT (scale 1), which unyt recognises through isclose(1e-9) and
+            # which bare numbers are identified with: a call that is accepted next to a bare number for scale 1 is refused for any
+            # other scale (allowed). One operand in `dimensionless` itself is the subject of the mixed kinds dl-one-* below
+            for sc in (sB, k * sB):
+                ctx.assume(Or(sc > 1.001, sc * 1.001 < 1.0))
+    if "L" in groups and "L2" in groups and not concrete:
+        distinct_scales(ctx, ctx.real("s_L", pos=True), ctx.real("s_L2", pos=True))
+    return reg
+
+
+class ConcreteEnv(Env):
+    """Env whose re-expression factor of the dimensionless groups is the concrete CONCRETE_K"""
+
+    def factor(self, group):
+        if self.run == "B" and KGROUP.get(group, group) in DIMLESS_GROUPS:
+            return CONCRETE_K
+        return super().factor(group)
+
+
+def group_dims_dimless(ctx, spec):
+    D = ctx.mods["unyt"].dimensions
+    d = D.dimensionless
+    for g, e in spec.items():
+        if g not in DIMLESS_GROUPS:
+            d = d * getattr(D, GROUP_DIMS[g]) ** e
+    return d
+
+
+def make_case(t, dimless=False):
+    """dimless: False | "sym" (scaled dimensionless units of symbolic scale in the groups L / L2) | "conc" (concrete dyadic scales)"""
+    dims_of = group_dims_dimless if dimless else group_dims
+    EnvOf = ConcreteEnv if dimless == "conc" else Env
+
     def h(ctx):
-        reg = make_registry(ctx, t.groups, both=True)
+        if dimless:
+            reg = make_registry_dimless(ctx, t.groups, concrete=(dimless == "conc"))
+        else:
+            reg = make_registry(ctx, t.groups, both=True)
         from symx.kernels import KernelModel
         runs = []
         for run in ("A", "B"):
-            E = Env(ctx, "q", reg, run)
+            E = EnvOf(ctx, "q", reg, run)
             n0 = len(KernelModel.calls)
             r = call(t.fn, np, E)
             if r[0] == "raise" and ctx.symbolic and engine_refusal(r[1]):
@@ -127,7 +218,7 @@ def make_case(t):
             tier2_axioms(ctx, t, c1, c2)
         f1, f2 = flatten(r1[1]), flatten(r2[1])
         compare(ctx, t, f1, f2, "result")
-        oracle(ctx, t, f1)
+        oracle(ctx, t, f1, dims_of)
         a1 = [x for n, v in E1.made.items() for x in flatten(v, n)]
         a2 = [x for n, v in E2.made.items() for x in flatten(v, n)]
         compare(ctx, t, a1, a2, "argument after the call")
@@ -135,7 +226,8 @@ def make_case(t):
             ctx.observe("result", numeric_obs(r1[1]))
             ctx.observe("result2", numeric_obs(r2[1]))
 
-    return Case(f"C07/{t.name}", h, bounds="symbolic: every array element, bare scalar argument, unit scale and re-expression factor",
+    cid = {False: f"C07/{t.name}", "sym": f"C07/dimless/{t.name}", "conc": f"C07/dimless-dyadic/{t.name}"}[dimless]
+    return Case(cid, h, bounds="symbolic: every array element, bare scalar argument" + ("" if dimless == "conc" else ", unit scale and re-expression factor"),
                 weight=t.weight, max_paths=t.max_paths, budget_s=600.0, conform=t.conform, group=t.key)
 
 
@@ -168,10 +260,86 @@ def compare_mixed(ctx, f1, f2, what, slack):
             ctx.require(f"{what} {p}: same bare result as the call in one common unit", leaves_equal(x, y, exact=False), mixed=str(x)[:250], common=str(y)[:250])
 
 
+# mixed-unit kinds inside the dimension `dimensionless` (the operands X / X2 of the MIXED templates):
+#   dl-scale       two scaled dimensionless units of symbolic scales (percent vs m/km, mol vs mmol)
+#   dl-ratio       X in a compound ratio of two length units of symbolic scales (m/km-like), X2 in an atomic dimensionless unit
+#   dl-one-first   X in the unscaled unit `dimensionless` (== NULL_UNIT), X2 in a scaled one
+#   dl-one-second  X in a scaled one, X2 in `dimensionless`
+#   dl-bare-first / dl-bare-second   as dl-one-*, but the unscaled operand is a BARE array (a plain number is a dimensionless
+#                  quantity); only for the comparison helpers, whose rule for plain numbers is stated (unyt fix b80acb9)
+DL_KINDS = ("dl-scale", "dl-one-first", "dl-one-second", "dl-ratio")
+DL_BARE_KINDS = ("dl-bare-first", "dl-bare-second")
+
+
+def make_mixed_registry_dimless(ctx, kind, groups):
+    """-> reg, (U1, U2), group whose operands are bare in the mixed run (or None)"""
+    D = ctx.mods["unyt"].dimensions
+    reg = ctx.registry([])
+    one = U("dimensionless", 1.0, 0.0)
+    for g in groups:
+        if g in ("T", "M"):
+            ctx.add_row(reg, UNITS["A"][g], getattr(D, GROUP_DIMS[g]), ctx.real("s_" + g, pos=True))
+    if kind == "dl-ratio":
+        # X in a COMPOUND dimensionless unit, the ratio of two lengths (m/km, cm/m): scale s_N/s_D
+        sn, sd = ctx.real("s_N", pos=True), ctx.real("s_D", pos=True)
+        ctx.add_row(reg, "xb", D.length, sn)
+        ctx.add_row(reg, "xh", D.length, sd)
+        U1 = U("xb/xh", sn / sd, 0.0)
+        ctx.assume(Or(sn > sd * 1.001, sn * 1.001 < sd))
+        U2 = U("xg", ctx.real("s_X2", pos=True), 0.0)
+        distinct_scales(ctx, sn, sd * U2.s)
+        ctx.assume(Or(U2.s > 1.001, U2.s * 1.001 < 1.0))
+        ctx.add_row(reg, U2.name, D.dimensionless, U2.s, 0.0)
+        return reg, (U1, U2), None
+    U1 = one if kind.endswith("-first") else U("xa", ctx.real("s_X", pos=True), 0.0)
+    U2 = one if kind.endswith("-second") else U("xg", ctx.real("s_X2", pos=True), 0.0)
+    for u in (U1, U2):
+        if u is not one:
+            # clearly different from the unscaled unit (scale exactly 1 is the `dimensionless` operand of the dl-one-* kinds; a unit
+            # within 1e-9 of it is the same unit for unyt, HARNESS_GUIDE lessons)
+            ctx.assume(Or(u.s > 1.001, u.s * 1.001 < 1.0))
+            ctx.add_row(reg, u.name, D.dimensionless, u.s, 0.0)
+    if kind == "dl-scale":
+        distinct_scales(ctx, U1.s, U2.s)
+    bare = None
+    if kind in DL_BARE_KINDS:
+        bare = "X" if kind.endswith("-first") else "X2"
+    return reg, (U1, U2), bare
+
+
+class MixEnv(Env):
+    """Env of the mixed family with (a) operands of one group left bare in the mixed run, (b) bare numbers that denote a
+    DIFFERENCE in the unit of group X2 (atol=) re-expressed by the harness in the common run"""
+
+    def __init__(self, *a, bare=None, **k):
+        super().__init__(*a, **k)
+        self.bare = bare
+
+    def _wrap(self, x, group):
+        if self.bare is not None and group == self.bare and self.run == "M":
+            return x
+        return super()._wrap(x, group)
+
+    def num(self, name, group="X", **kw):
+        v = self._real(name, **kw)
+        if group == "X2" and self.run == "C":
+            U1, U2 = self.mix
+            return v * U2.s / U1.s
+        return v
+
+
 def make_mixed_case(t, kind):
+    dimless = kind.startswith("dl-")
+
     def h(ctx):
         from symx.kernels import KernelModel
-        reg, (U1, U2) = make_mixed_registry(ctx, kind, t.groups)
+        if dimless:
+            reg, (U1, U2), bare = make_mixed_registry_dimless(ctx, kind, t.groups)
+            Env = lambda *a, **k: MixEnv(*a, bare=bare, **k)
+        else:
+            reg, (U1, U2) = make_mixed_registry(ctx, kind, t.groups)
+            bare = None
+            Env = lambda *a, **k: MixEnv(*a, **k)
         slack = (vabs(U1.s * U1.o) + vabs(U2.s * U2.o)) * 1e-6
         EM = Env(ctx, "q", reg, "M", mix=(U1, U2))
         rm = call(t.fn, np, EM)
@@ -191,14 +359,70 @@ def make_mixed_case(t, kind):
             ctx.require("mixed units: returns although the same call in one common unit raises", False, common=str(rc[1])[:200])
             return
         compare_mixed(ctx, flatten(rm[1]), flatten(rc[1]), "result", slack)
-        a1 = [x for n, v in EM.made.items() for x in flatten(v, n)]
-        a2 = [x for n, v in EC.made.items() for x in flatten(v, n)]
+        a1 = [x for n, v in EM.made.items() if EM.group[n] != bare for x in flatten(v, n)]
+        a2 = [x for n, v in EC.made.items() if EC.group[n] != bare for x in flatten(v, n)]
         compare_mixed(ctx, a1, a2, "argument after the call", slack)
+        for n, v in EM.made.items():
+            if EM.group[n] == bare:   # the bare operand is not touched and still denotes the same dimensionless numbers
+                w = EC.made[n]
+                ctx.require(f"argument after the call {n}: the bare operand is unchanged", (not is_unyt(v)) and is_unyt(w) and leaf_shape(v) == leaf_shape(w) and
+                            And(*[close(a, b) for a, b in zip(leaf_elements(v), si_affine(w))]))
         if t.tier == 1:
             ctx.observe("result", numeric_obs(rm[1]))
 
     return Case(f"C07/mixu/{kind}/{t.name}", h, bounds="symbolic: elements, both scales, both offsets", weight=3, max_paths=t.max_paths,
                 budget_s=600.0, oblig_timeout_ms=60000, conform=t.conform, group=t.key)
+
+
+def _x2(E, s1=(2,), s2=(2,)):
+    return [E.q("a", "X", s1), E.q("b", "X2", s2)]
+
+
+def _TC(name, key, fn, **kw):
+    kw.setdefault("groups", ("X", "X2"))
+    return Tpl(name, key, fn, **kw)
+
+
+# further call forms of the comparison helpers for the mixed family (offset-free kinds only: a tolerance is a difference)
+CMP_FORMS = [
+    _TC("np.isclose/swapped", "numpy.isclose", lambda N, E: N.isclose(*_x2(E)[::-1], rtol=0.25, atol=0)),
+    _TC("np.allclose/swapped", "numpy.allclose", lambda N, E: N.allclose(*_x2(E)[::-1], 0.25, 0)),
+    _TC("np.isclose/0d", "numpy.isclose", lambda N, E: N.isclose(*_x2(E, (), ()), rtol=0.25, atol=0)),
+    _TC("np.isclose/bcast", "numpy.isclose", lambda N, E: N.isclose(*_x2(E, (2,), ()), 0.25, 0)),
+    _TC("np.allclose/0d-first", "numpy.allclose", lambda N, E: N.allclose(*_x2(E, (), (2,)), rtol=0.25, atol=0)),
+]
+# tolerances given explicitly: atol as a quantity in either unit; a bare atol is a difference in the unit of b (the reference),
+# re-expressed by the harness together with b in the common run
+CMP_TOL_FORMS = [
+    _TC("np.isclose/atol-q-other", "numpy.isclose", lambda N, E: N.isclose(*_x2(E), rtol=0, atol=E.q("t", "X2", (), pos=True))),
+    _TC("np.isclose/atol-q-own", "numpy.isclose", lambda N, E: N.isclose(*_x2(E), rtol=0, atol=E.q("t", "X", (), pos=True))),
+    _TC("np.allclose/atol-q-other", "numpy.allclose", lambda N, E: N.allclose(*_x2(E), 0, E.q("t", "X2", (), pos=True))),
+    _TC("np.isclose/atol-num", "numpy.isclose", lambda N, E: N.isclose(*_x2(E), rtol=0, atol=E.num("t", "X2", pos=True))),
+    _TC("np.allclose/atol-num", "numpy.allclose", lambda N, E: N.allclose(*_x2(E), 0, E.num("t", "X2", pos=True))),
+]
+
+
+# templates whose real code folds the scales of dimensionless units into a sympy number (see CONCRETE_K)
+DIMLESS_CONCRETE_FUNCS = ("m.std", "m.var", "np.std", "np.nanstd", "np.nanvar")   # every call form of these
+DIMLESS_CONCRETE = ("np.var/mean-kw",)
+
+
+def _dimless_mode(t):
+    return "conc" if (t.name in DIMLESS_CONCRETE or t.name.split("/")[0] in DIMLESS_CONCRETE_FUNCS) else "sym"
+
+
+def dimless_templates(tier):
+    """templates that have an operand in the groups L / L2 (re-run with scaled dimensionless units there). quick: the quick
+    catalogue without the operand-rank sweep `rank/`; thorough: the full catalogue without the shape sweep `sweep/` and with the
+    quick part of `rank/` only (both sweeps vary rank and shape of the same calls, not the unit handling)"""
+    out = []
+    for t in select(tier, "c07"):
+        if not any(g in DIMLESS_GROUPS for g in t.groups) or t.name.startswith("sweep/"):
+            continue
+        if t.name.startswith("rank/") and (tier == "quick" or not t.quick):
+            continue
+        out.append(t)
+    return out
 
 
 def cases(tier, mods):
@@ -207,6 +431,13 @@ def cases(tier, mods):
     out = [make_case(t) for t in select(tier, "c07")]
     out += [make_mixed_case(t, kind) for kind in MIX_KINDS for t in MIXED
             if not (kind == "affine" and t.name == "np.histogram/range-both-other")]   # quick and thorough
+    # ---- scaled dimensionless units (quick and thorough)
+    out += [make_case(t, dimless=_dimless_mode(t)) for t in dimless_templates(tier)]
+    slow = lambda t, kind: kind == "dl-ratio" and t.tier == 2   # three scale symbols inside one uninterpreted application: 30 s each
+    out += [make_mixed_case(t, kind) for kind in DL_KINDS for t in MIXED if not slow(t, kind)]
+    out += [make_mixed_case(t, kind) for kind in ("scale",) + DL_KINDS for t in CMP_FORMS + CMP_TOL_FORMS]
+    cmp_atol0 = [t for t in MIXED if t.key in ("numpy.isclose", "numpy.allclose")] + CMP_FORMS
+    out += [make_mixed_case(t, kind) for kind in DL_BARE_KINDS for t in cmp_atol0]
     return out
 
 
@@ -215,4 +446,9 @@ def coverage_extra(results, tier):
     out = coverage_summary(results, tier, "c07")
     out["dimension_oracle_entries"] = sum(1 for t in select(tier, "c07") if t.dim is not None)
     out["templates_checked_for_dimension_only"] = sorted(t.name for t in select(tier, "c07") if not t.cov)
+    ids = [r["id"] for r in results]
+    out["scaled_dimensionless"] = dict(
+        templates_rerun_with_dimensionless_units=sum(1 for i in ids if i.startswith("C07/dimless")),
+        of_which_with_concrete_dyadic_scales=sum(1 for i in ids if i.startswith("C07/dimless-dyadic/")),
+        mixed_unit_cases={k: sum(1 for i in ids if i.startswith(f"C07/mixu/{k}/")) for k in DL_KINDS + DL_BARE_KINDS})
     return out
